@@ -1072,17 +1072,18 @@ func Run(r *common.Run) error {
 				}
 				continue
 			}
-			if len(f) == 10 && f[0] == "C05" && f[1] == "behind" {
-				cfg := mkCfg(f[6], f[7])
-				k, _ := strconv.Atoi(f[3])
-				ts, err1 := decToks(f[4])
-				us, err2 := decToks(f[9])
-				cl := call{entry: f[5], form: "reader", toks: us}
-				if f[5] == "enc" || f[5] == "encel" {
+			if len(f) == 11 && f[0] == "C05" && f[1] == "behind" {
+				cfg := mkCfg(f[7], f[8])
+				park, _ := strconv.Atoi(f[3])
+				k, _ := strconv.Atoi(f[4])
+				ts, err1 := decToks(f[5])
+				us, err2 := decToks(f[10])
+				cl := call{entry: f[6], form: "reader", toks: us}
+				if f[6] == "enc" || f[6] == "encel" {
 					cl.form = "marshaler"
 				}
-				if f[8] != "-" {
-					st, err := decToks(f[8])
+				if f[9] != "-" {
+					st, err := decToks(f[9])
 					if err != nil || len(st) != 1 {
 						continue
 					}
@@ -1091,7 +1092,7 @@ func Run(r *common.Run) error {
 					}
 				}
 				if err1 == nil && err2 == nil {
-					c.behind(cfg, f[2], k, ts, cl)
+					c.behind(cfg, f[2], park, k, ts, cl)
 					executed++
 				}
 				continue
@@ -1220,7 +1221,8 @@ func Run(r *common.Run) error {
 			continue
 		}
 		cl = noForeign(cfg, cl)
-		c.behind(cfg, pickS(rnd, []string{"fail", "finish"}), 1+rnd.Intn(len(toks)-1), toks, cl)
+		k := 1 + rnd.Intn(len(toks)-1)
+		c.behind(cfg, pickS(rnd, []string{"fail", "finish"}), rnd.Intn(k+1), k, toks, cl)
 	}
 	nConc := r.Pick(30, 300)
 	for i := 0; i < nConc; i++ {
